@@ -196,6 +196,16 @@ def wl_random(ctx, rng, case):
         keys = keys[:4] + ["L" * rng.choice([1000, 4096, 5000]), bytes(rng.getrandbits(8) for _ in range(rng.choice([1024, 3000])))]  # long keys
     case.desc = {"keys": keys}
     strat = strategies()
+    # calls that are REFUSED (a key that is neither text nor bytes; a structure asked to hash such a key) come first: a strategy is a pure
+    # function, so nothing a failing call did may show in any later answer - all of which are compared with the references below
+    for bad in (None, 5, 3.5, ["a"], ("k",)):
+        for fn in (H.fnv_1a_32, H.fnv_1a, lambda x: H.default_fnv_1a(x, 2), lambda x: H.default_md5(x, 2), lambda x: H.default_sha256(x, 1),
+                   lambda x: P.QuotientFilter(quotient=3).add(x), lambda x: P.BloomFilter(5, 0.1).add(x), lambda x: P.CuckooFilter(capacity=4).add(x),
+                   lambda x: strat["decorated_int_salted"](x, 2), lambda x: strat["decorated_bytes_salted"](x, 2)):
+            try:
+                fn(bad)
+            except Exception:
+                ctx.count("refused_hash_calls")
     for k in keys:
         kb = gen.to_bytes(k)
         for name, hf in strat.items():
